@@ -496,6 +496,9 @@ def jinja_text(n) -> str:
         return f"{jinja_text(n.left)} or {jinja_text(n.right)}"
     if isinstance(n, N.CondExpr):
         return f"{jinja_text(n.expr1)} if {jinja_text(n.test)} else {jinja_text(n.expr2) if n.expr2 is not None else ''}"
+    if isinstance(n, N.Compare):
+        ops = {"eq": "==", "ne": "!=", "lt": "<", "lteq": "<=", "gt": ">", "gteq": ">=", "in": "in", "notin": "not in"}
+        return jinja_text(n.expr) + "".join(f" {ops.get(o.op, o.op)} {jinja_text(o.expr)}" for o in n.ops)
     if isinstance(n, N.Concat):
         return " ~ ".join(jinja_text(x) for x in n.nodes)
     if isinstance(n, N.MarkSafe):
